@@ -287,4 +287,50 @@ example : Nat'.encode ⟨5, 2, 4, 2⟩ 0 = some 1 ∧ natValid ⟨5, 2, 4, 2⟩ 
     Nat'.encode ⟨5, 2, 4, 2⟩ 1 = none := by
   refine ⟨by decide, natValid_one _, by decide⟩
 
+/-- the image of `encode`, from the other side: every canonical member except the single one that
+    decodes to `q - 1` (it is `q` or `q + 1`, whichever is the residue) is the encoding of its own
+    decoding.  `q` odd. -/
+theorem encode_decode_of_member (P : Params) (h : SafePrimeGroup P) (hq : P.q % 2 = 1) (e : ℕ)
+    (h1 : 1 ≤ e) (hlt : e < P.p) (hv : natValid P e) (hne : e ≠ P.q) (hne' : e ≠ P.q + 1) :
+    Nat'.encode P (Nat'.decode P e) = some e := by
+  have hp := h.p_eq
+  have : Fact P.p.Prime := ⟨h.p_prime⟩
+  have hq2 : 2 ≤ P.q := h.q_prime.two_le
+  have : Fact (2 < P.p) := ⟨by omega⟩
+  have hpow : e ^ P.q % P.p = 1 := (natValid_iff_pow P (by omega) e).mp hv
+  unfold Nat'.decode
+  by_cases hgt : e > P.q
+  · -- upper half: `m + 1 = p - e`, a non-residue
+    rw [if_pos hgt, encode_eq_some_iff P hp]
+    have hm1 : P.p - e - 1 + 1 = P.p - e := by omega
+    rw [hm1]
+    have hnv : ¬ (P.p - e) ^ P.q % P.p = 1 := by
+      intro hc
+      have hc' := natValid_of_pow P _ hc
+      unfold natValid at hc' hv
+      rw [Nat.cast_sub (by omega), ZMod.natCast_self, zero_sub, (Nat.odd_iff.mpr hq).neg_pow, hv]
+        at hc'
+      exact ZMod.neg_one_ne_one hc'
+    refine ⟨by omega, pow_mod_ne_zero_of_prime h.p_prime (by omega) (by omega) _, ?_⟩
+    rw [if_neg hnv]; omega
+  · rw [if_neg hgt, encode_eq_some_iff P hp]
+    have hm1 : e - 1 + 1 = e := by omega
+    rw [hm1]
+    refine ⟨by omega, by omega, ?_⟩
+    rw [if_pos hpow]
+
+/-- conversely the member that decodes to `q - 1` is not an encoding -/
+theorem encode_decode_exceptional (P : Params) (h : SafePrimeGroup P) (e : ℕ)
+    (he : e = P.q ∨ e = P.q + 1) : Nat'.encode P (Nat'.decode P e) = none := by
+  have hp := h.p_eq
+  have hq2 : 2 ≤ P.q := h.q_prime.two_le
+  apply encode_none_of_ge
+  unfold Nat'.decode
+  rcases he with rfl | rfl
+  · rw [if_neg (by omega)]
+  · rw [if_pos (by omega)]; omega
+
+example : Nat'.encode ⟨23, 11, 2, 2⟩ (Nat'.decode ⟨23, 11, 2, 2⟩ 13) = some 13 ∧
+    Nat'.encode ⟨23, 11, 2, 2⟩ (Nat'.decode ⟨23, 11, 2, 2⟩ 12) = none := by decide
+
 end Strand
